@@ -14,3 +14,72 @@ package keeper
 //@ accessor get (Keeper) GetOrder Order(id)
 //@ accessor set (Keeper) SetOrder Order(order.Id) order
 //@ accessor del (Keeper) RemoveOrder Order(id)
+
+// effective next identifier: a missing or zero order counter reads as 1, a missing shard counter as 0
+//@ pure effOrderCount(b Slice_Int) int = (isnil(b) ? 1 : (be64dec(b) == 0 ? 1 : be64dec(b)))
+//@ pure effShardCount(b Slice_Int) int = (isnil(b) ? 0 : be64dec(b))
+
+//@ func (Keeper) GetOrderCount(ctx) (n)
+//@   modifies nothing
+//@   ensures [C16.count.order] n == effOrderCount(get(OrderCount))
+//@ func (Keeper) GetShardCount(ctx) (n)
+//@   modifies nothing
+//@   ensures [C16.count.shard] n == effShardCount(get(ShardCount))
+//@ func (Keeper) SetOrderCount(ctx, count)
+//@   modifies OrderCount
+//@   ensures [C16.count.setorder] !isnil(get(OrderCount)) && be64dec(get(OrderCount)) == count
+//@ func (Keeper) SetShardCount(ctx, count)
+//@   modifies ShardCount
+//@   ensures [C16.count.setshard] !isnil(get(ShardCount)) && be64dec(get(ShardCount)) == count
+
+// identifiers are handed out from the counter, never reused, and increase with creation order
+//@ func (Keeper) AppendOrder(ctx, order) (id)
+//@   requires [C16.inv.order] forall i int :: 0 <= i && i <= MaxUint64 && has(Order, i) ==> i < effOrderCount(get(OrderCount))
+//@   modifies Order[effOrderCount(get(OrderCount))], OrderCount
+//@   ensures [C16.append.order.id] id == old(effOrderCount(get(OrderCount))) && id >= 1
+//@   ensures [C16.append.order.fresh] !old(has(Order, id))
+//@   ensures [C16.append.order.stored] has(Order, id) && Order[id].Id == id && Order[id].Creator == order.Creator && Order[id].Owner == order.Owner
+//@       && Order[id].Amount == order.Amount && Order[id].Shards == order.Shards && Order[id].Status == order.Status && Order[id].DataId == order.DataId
+//@       && Order[id].Duration == order.Duration && Order[id].Replica == order.Replica && Order[id].Size_ == order.Size_ && Order[id].UnitPrice == order.UnitPrice
+//@       && Order[id].PaymentDid == order.PaymentDid && Order[id].Commit == order.Commit && Order[id].Operation == order.Operation && Order[id].Timeout == order.Timeout
+//@       && Order[id].CreatedAt == order.CreatedAt && Order[id].Provider == order.Provider && Order[id].Cid == order.Cid
+//@   ensures [C16.append.order.count] id < MaxUint64 ==> effOrderCount(get(OrderCount)) == id + 1
+//@   ensures [C16.append.order.inv] id < MaxUint64 ==> forall i int :: 0 <= i && i <= MaxUint64 && has(Order, i) ==> i < effOrderCount(get(OrderCount))
+
+//@ func (Keeper) AppendShard(ctx, shard) (id)
+//@   requires [C16.inv.shard] forall i int :: 0 <= i && i <= MaxUint64 && has(Shard, i) ==> i < effShardCount(get(ShardCount))
+//@   modifies Shard[effShardCount(get(ShardCount))], ShardCount
+//@   ensures [C16.append.shard.id] id == old(effShardCount(get(ShardCount)))
+//@   ensures [C16.append.shard.fresh] !old(has(Shard, id))
+//@   ensures [C16.append.shard.stored] has(Shard, id) && Shard[id].Id == id && Shard[id].OrderId == shard.OrderId && Shard[id].Status == shard.Status
+//@       && Shard[id].Size_ == shard.Size_ && Shard[id].Cid == shard.Cid && Shard[id].Sp == shard.Sp && Shard[id].From == shard.From
+//@       && Shard[id].Pledge == shard.Pledge && Shard[id].Duration == shard.Duration && Shard[id].CreatedAt == shard.CreatedAt && Shard[id].RenewInfos == shard.RenewInfos
+//@   ensures [C16.append.shard.count] id < MaxUint64 ==> effShardCount(get(ShardCount)) == id + 1
+//@   ensures [C16.append.shard.inv] id < MaxUint64 ==> forall i int :: 0 <= i && i <= MaxUint64 && has(Shard, i) ==> i < effShardCount(get(ShardCount))
+
+// refund of a pending order: exactly the charged amount, from the order escrow to the payer's current payment address
+//@ func (Keeper) RefundOrder(ctx, orderId) (err)
+//@   modifies Bank
+//@   ensures [C05.refund.amount] err == nil ==> old(has(Order, orderId))
+//@       && has(PaymentAddress, (Order[orderId].PaymentDid != "" ? Order[orderId].PaymentDid : Order[orderId].Owner))
+//@   ensures [C05.refund.bank] err == nil && addr(PaymentAddress[(Order[orderId].PaymentDid != "" ? Order[orderId].PaymentDid : Order[orderId].Owner)].Address) != moduleAddr("order") ==>
+//@       bal(addr(PaymentAddress[(Order[orderId].PaymentDid != "" ? Order[orderId].PaymentDid : Order[orderId].Owner)].Address), Order[orderId].Amount.Denom)
+//@         == old(bal(addr(PaymentAddress[(Order[orderId].PaymentDid != "" ? Order[orderId].PaymentDid : Order[orderId].Owner)].Address), Order[orderId].Amount.Denom)) + Order[orderId].Amount.Amount
+//@       && bal(moduleAddr("order"), Order[orderId].Amount.Denom) == old(bal(moduleAddr("order"), Order[orderId].Amount.Denom)) - Order[orderId].Amount.Amount
+//@       && Order[orderId].Amount.Amount > 0
+//@   ensures [C05.refund.frame] forall a addr, d string :: a != moduleAddr("order") && a != addr(PaymentAddress[(Order[orderId].PaymentDid != "" ? Order[orderId].PaymentDid : Order[orderId].Owner)].Address) ==> bal(a, d) == old(bal(a, d))
+//@   ensures [C05.refund.err] err != nil ==> forall a addr, d string :: bal(a, d) == old(bal(a, d))
+
+// settlement of a completed order: the refund goes to the owner's payment address, or to the owner's DID balance
+//@ func (Keeper) TerminateOrder(ctx, orderId, refundCoin) (err)
+//@   requires has(Order, orderId) && has(DidBalances, Order[orderId].Owner) ==> DidBalances[Order[orderId].Owner].Did == Order[orderId].Owner
+//@   modifies Order[orderId], DidBalances[Order[orderId].Owner], Bank
+//@   ensures [C04.terminate.status] err == nil ==> old(has(Order, orderId)) && old(Order[orderId].Status) == OrderCompleted && !has(Order, orderId)
+//@   ensures [C04.terminate.refund] err == nil && old(has(PaymentAddress, Order[orderId].Owner)) && refundCoin.Amount > 0
+//@       && addr(PaymentAddress[old(Order[orderId].Owner)].Address) != moduleAddr("order") ==>
+//@       bal(addr(PaymentAddress[old(Order[orderId].Owner)].Address), refundCoin.Denom) == old(bal(addr(PaymentAddress[Order[orderId].Owner].Address), refundCoin.Denom)) + refundCoin.Amount
+//@       && bal(moduleAddr("order"), refundCoin.Denom) == old(bal(moduleAddr("order"), refundCoin.Denom)) - refundCoin.Amount
+//@   ensures [C04.terminate.didbalance] err == nil && !old(has(PaymentAddress, Order[orderId].Owner)) && refundCoin.Amount != 0 && moduleAddr("order") != moduleAddr("did") ==>
+//@       DidBalances[old(Order[orderId].Owner)].Balance.Amount == (old(has(DidBalances, Order[orderId].Owner)) ? old(DidBalances[Order[orderId].Owner].Balance.Amount) : 0) + refundCoin.Amount
+//@       && bal(moduleAddr("did"), refundCoin.Denom) == old(bal(moduleAddr("did"), refundCoin.Denom)) + refundCoin.Amount
+//@       && bal(moduleAddr("order"), refundCoin.Denom) == old(bal(moduleAddr("order"), refundCoin.Denom)) - refundCoin.Amount
